@@ -1,8 +1,16 @@
 (* C18 - Every input is answered promptly with output or a located error, never a crash.
-   PARTIAL by nature (DESIGN.md): promptness and memory are properties of the Go runtime. Proved here: positions the
-   lexer hands to the parser - the only source of line numbers in errors - always lie inside the input. *)
+   PARTIAL by nature (DESIGN.md): promptness and memory are properties of the Go runtime. Proved here, for the model:
+   - never a crash: the parser model marks every place where the Go code could index out of range or dereference nil with
+     an explicit Panic result; no token list, command configuration, switch set, font configuration or mode makes
+     parse_program return Panic (parser_never_panics: all 40 parsing functions, by one induction on the fuel each);
+   - the lexer terminates: every token that is not the final EOF consumes a character (lexer_makes_progress), so the token
+     stream is produced with the fuel the model gives it (fuel independence: LexLayout.lex_all_enough);
+   - located errors: the positions the lexer hands to the parser - the only source of line numbers in errors - always lie
+     inside the input.
+   Not proved: that the parser's fuel (one more than the number of tokens) always suffices - termination of the parser
+   proper - which the run-time checks decide (HANG watchdog, nesting depth 2000). *)
 From Coq Require Import List ZArith Bool.
-From Pory Require Import Lexer LexInv.
+From Pory Require Import Lexer LexInv LexLayout Ast Parser Format NoPanic.
 Import ListNotations.
 Local Open Scope Z_scope.
 
@@ -11,3 +19,16 @@ Theorem token_lines_inside_input_partial :
     Forall (fun tk => 1 <= tline tk <= 1 + nl s /\ 1 <= teline tk <= 1 + nl s) (lex is_letter_hi is_digit_hi is_space_hi s).
 Proof. exact lex_lines_in_range. Qed.
 Print Assumptions token_lines_inside_input_partial.
+
+
+Theorem parser_never_panics :
+  forall autovars switches env_errors fc cli_font cli_maxlen ts,
+    parse_program autovars switches env_errors (parse_format fc cli_font cli_maxlen env_errors) ts <> Panic.
+Proof. exact NoPanic.parser_never_panics. Qed.
+Print Assumptions parser_never_panics.
+
+Theorem lexer_makes_progress :
+  forall is_letter_hi is_digit_hi is_space_hi l ts l', next_token_aux is_letter_hi is_digit_hi is_space_hi l = (ts, l', false) ->
+    (List.length (chs l') < List.length (chs l))%nat.
+Proof. exact next_token_progress. Qed.
+Print Assumptions lexer_makes_progress.
